@@ -197,7 +197,7 @@ func c25SubVectors(n, nt int, rich bool) [][]uint8 {
 }
 
 func c25Blocks(thorough bool) ([]c25Block, string) {
-	maxN, richN, total, totalAtMax := 3, 3, 4, 4
+	maxN, richN, total, totalAtMax := 3, 2, 4, 4
 	if thorough {
 		maxN, richN, total, totalAtMax = 4, 3, 6, 4
 	}
@@ -291,7 +291,7 @@ func TestVerifC25(t *testing.T) {
 					}
 					if b.assignor == "uniform" && plan != nil {
 						for i := 0; i < c.N; i++ {
-							if i != b.away && balenum.FormatPlan(balenum.Plan{"x": c.Owned(i)}) != balenum.FormatPlan(balenum.Plan{"x": plan[c.ID(i)]}) {
+							if i != b.away && balenum.PlanCode(c, balenum.Plan{c.ID(i): c.Owned(i)}) != balenum.PlanCode(c, balenum.Plan{c.ID(i): plan[c.ID(i)]}) {
 								lMoved++
 								break
 							}
